@@ -2,7 +2,7 @@
 
 META = {
     "explanation_more": "Also (round 5): the fraction's length reaches `18 - len` un-narrowed (any integer checked_sub, no `len as u8`); a width given through a local variable is resolved to its constant.",
-    "explanation_more": 'Also (round 4): every path through checked_add / checked_sub goes through the 256-bit Uint::checked_* (no narrower fast path); every text-to-number call of the module, not only from_str_radix, sits behind the all-ASCII-digits test.',
+    "explanation_more2": 'Also (round 4): every path through checked_add / checked_sub goes through the 256-bit Uint::checked_* (no narrower fast path); every text-to-number call of the module, not only from_str_radix, sits behind the all-ASCII-digits test.',
     "explanation": "Decides: (1) the fractional placeholder of <AttoTokens as Display> is zero-padded to exactly "
                    "TOKEN_TO_RAW_POWER_OF_10_CONVERSION digits and TOKEN_TO_RAW_CONVERSION == 10^that, unit/remainder are "
                    "Div/Rem by the same constant; (2) from_str / checked_add / checked_sub contain no wrapping ruint operator "
